@@ -136,6 +136,8 @@ var c13Contexts = []ctxTmpl{
 	{"switch (", ") { case 1 { v1 = 1; } }", false, true, false, false},
 	{"switch (c1) { case ", " { v1 = 1; } }", false, true, false, false},
 	{"switch (", ") { default { v1 = 1; } }", false, true, false, false},
+	{"switch (c1) { case 1, ", " { v1 = 1; } }", false, true, false, false},
+	{"switch (c1) { case ", ", 2 { v1 = 1; } default { v2 = 2; } }", false, true, false, false},
 	{"switch (", ") { }", false, true, false, false},
 	{"v5 += (", ");", false, true, false, false},
 	// expression contexts with an expression hole
@@ -162,6 +164,9 @@ var c13Contexts = []ctxTmpl{
 	{"(", ")", false, false, false, false},
 	{"-(", ")", false, false, false, false},
 	{"!(", ")", false, false, false, false},
+	{"√(", ")", false, false, false, false},
+	{"c3 in [1, ", "]", false, false, false, false},
+	{"(", ") .. 3", false, false, false, false},
 	{"1 + (", ")", false, false, false, false},
 	{"(", ") * 2", false, false, false, false},
 	{"c1 ? (", ") : 2", false, false, false, true},
